@@ -2,6 +2,7 @@ import TTProofs.Lemmas.C14_Real
 import TTProofs.Lemmas.C11_Eval
 import TTModel.C14_Protocol
 import TTModel.C11_Table
+import TTGen.C14_Branch
 /-!
 # C14 — variational objectives are exact at the true posterior
 
@@ -211,6 +212,15 @@ theorem objectives_always_redraw :
       ((TTGen.C11_Wiring.find n).guards.any fun g => g.impl == "__call__") = false ∧
       (TTGen.C11_Wiring.find n).name = n := by
   decide
+
+/-- **elbo_branch_by_rank.**  The branch table generated from `ELBO._call`: for every option and every shape class
+(rank 1 / 2, last dimension 1 or larger) the source takes the branch the model assigns — in particular a
+two-dimensional sample shape whose last dimension is 1 is still the multi-sample estimator (exact at the
+posterior, `tight_elboMulti`), whatever `entropy` says; all 16 cases are present. -/
+theorem elbo_branch_by_rank :
+    TTGen.C14_Branch.translatorOk = true ∧ TTGen.C14_Branch.table.length = 16 ∧
+    ∀ c ∈ TTGen.C14_Branch.table, c.branch = c.expected := by
+  refine ⟨by decide, by decide, by decide⟩
 
 /-! ### non-vacuity -/
 example : elbo ([3, 3, 3] : List ℝ) = 3 := tight_elbo _ 3 (by simp) (by simp)
